@@ -412,3 +412,13 @@ _ADD8 = {
 }
 for _p, _t in _ADD8.items():
     META[_p]['text'] = META[_p]['text'] + _t
+
+_ADD9 = {
+    'C01': ' A store to the id counter outside the counter function is accepted only in the form that can only raise it (restoring pickled events).',
+    'C03': ' The method that stores the bound and the inclusiveness of a run stores both on every accepting path (a piece of a split run does not inherit the flag of the piece before).',
+    'C12': ' Writer / reader agreement of the pickled state: __setstate__ restores every field from the key __getstate__ saved it under (R12.16).',
+    'C16': ' The operand of the guard cases is a quantity object: not of exact type float / int, but an instance of float.',
+    'C18': ' An accepted value is stored on every accepting path of set_value (an equal value of another type, unit or sign of zero included).',
+}
+for _p, _t in _ADD9.items():
+    META[_p]['text'] = META[_p]['text'] + _t
